@@ -5,6 +5,7 @@ import (
 	"fmt"
 	"io"
 	"os"
+	"path"
 	"path/filepath"
 	"strings"
 
@@ -13,6 +14,21 @@ import (
 )
 
 var emptyPrefix = &gofakes3.Prefix{}
+
+// validKey reports whether an object key can be used as a relative file path
+// exactly as it is. Keys that path.Clean would change ("a/../b", "a/./b",
+// "a//b", "a/"), and keys that climb out of the bucket ("..", "../x", "/x"),
+// are refused: they would alias other keys or other buckets' files.
+func validKey(key string) bool {
+	if key == "" || key == "." || key == ".." || strings.HasPrefix(key, "../") || strings.HasPrefix(key, "/") {
+		return false
+	}
+	return path.Clean(key) == key
+}
+
+func invalidKey(key string) error {
+	return gofakes3.ErrorInvalidArgument("key", key, "the key cannot be mapped to a file inside the bucket")
+}
 
 type readerWithCloser struct {
 	io.Reader
